@@ -90,7 +90,7 @@ class StateTriggerDecorator(TriggerDecorator, ExpressionDecorator, AutoKwargsDec
     state_check_now: bool | None
     __test_handshake__: list[str] | None
 
-    notify_q: asyncio.Queue
+    notify_q: asyncio.Queue | None = None
     in_wait_until_function: bool
     cycle_task: asyncio.Task = None
 
@@ -326,4 +326,6 @@ class StateTriggerDecorator(TriggerDecorator, ExpressionDecorator, AutoKwargsDec
         await super().stop()
         if self.cycle_task is not None:
             self.cycle_task.cancel()
-        State.notify_del(self.state_trig_ident, self.notify_q)
+        if self.notify_q is not None:
+            # None when the trigger is stopped before it was started
+            State.notify_del(self.state_trig_ident, self.notify_q)
